@@ -152,6 +152,28 @@ CLAIMED = {
         note=BASE_NOTE + "KernelOptimal is a hypothesis here (discharged by C06's theorems under the svd/eigh contracts); the text route is at 3-decimal precision (tolerance 2e-3).",
         technique='Lean 4 proof of rigidity/frame/pairing over a data-flow model with the kernel as parameter + differential correspondence with an independent optimiser',
         design_ref='DESIGN.md 5/C13, 12'),
+    'C05': dict(
+        category='proof',
+        text=("Model/Contacts.lean follows get_contact_atoms step by step (chain list, itertools.combinations, exact d^2 <= c^2 test, hydrogen skip, backbone filter on both sides, accumulation of the pair map and "
+              "per-chain lists, sorted(set())); backbone names and the default cutoff come from the translated constants; Spec/C05.lean is the set-theoretic definition. Theorems (Props/C05.lean, 20) for EVERY structure, "
+              "cutoff and option combination: for two chains the per-chain sets and the pair map equal the Spec list for list (contacts_two_chain, contacts_two_chain_returned); for all chains the returned dict is the "
+              "union over the other chains and the pair map holds every contacting pair of two different chains exactly once under the atom whose chain sorts first (contacts_all_chains, IsAllChainsPairMap); swapping the "
+              "chains transposes the pair map and leaves the sets unchanged (swap_transposes, swap_same_sets); an unknown chain is rejected (unknown_chain_rejected); meaning theorems spell the Spec out index by index; "
+              "backbone_names pins the source's list. Correspondence: 2-5 chains on a quarter-Angstrom lattice with Pythagorean offsets hitting cutoffs 3, 5, 7, 8.5, 9 EXACTLY and just inside/outside, hydrogens, "
+              "blank names, non-backbone names, all 2^4 option combinations x all ordered chain pairs x allchains, plus 3CRO (3CRO_H, 1AK4 in the thorough tier)."),
+        note=BASE_NOTE + "Float distance decision = exact decision (generated distances exactly on a cutoff or >= 1e-6 away; discards counted); SQLite returns rows in rowid order; single-model files.",
+        technique='Lean 4 proof model = set-theoretic spec for all inputs + differential correspondence on at-cutoff lattices',
+        design_ref='DESIGN.md 5/C05, 12'),
+    'C14': dict(
+        category='proof',
+        text=("Same model file; Spec/C14.lean defines residues as projections and extension as closure. Theorems (Props/C14.lean, 12) for all arguments: contact residues are exactly the distinct (chain, number, name) "
+              "triples of the contact atoms of the very get_contact_atoms call the routine makes, the residue pair map is exactly the projection of the atom pair map (residues_are_projection, "
+              "residue_pairs_are_projection), extension returns exactly all atoms (all backbone atoms in backbone mode) of every residue owning a contact atom - nothing missing, nothing foreign; residues sharing a number "
+              "but differing in name or chain are distinct (extension_is_closure, extension_of_call, extension_leaves_pairs, spec_extension_meaning), plus two-chain corollaries against the C05 Spec and rejection of unknown "
+              "chains. Correspondence: the C05 generator + residues sharing numbers across chains and names, negative numbers, all option combinations incl. extend_to_residue."),
+        note=BASE_NOTE + "As C05.",
+        technique='Lean 4 proof (projection/closure for all inputs) + differential correspondence',
+        design_ref='DESIGN.md 5/C14, 12'),
 }
 
 checks = []
